@@ -80,6 +80,66 @@ def register(db):
             ],
             raises={}, properties=P,
         ))
+    # empty collections render as the literal python prints for them (evaluates to an equal, same-kind collection)
+    for kind, empty, text in (("list", lambda mk, base: mk.plist([]), "'[]'"), ("tuple", lambda mk, base: (), "'()'")):
+        db.add(Contract(
+            f"{PS}.repr_array", variant=f"empty-{kind}",
+            params={"self": serializer, "obj": empty, "level": 0, "types": "opaque:PySet"},
+            ensures=[("empty-literal-of-the-same-kind", f"len(result) == 1 and result[0] == {text}")],
+            raises={}, properties=P,
+        ))
+    # a value that is no collection, mapping, model or enum member is rendered by literal_value, alone
+    for k in ("tuple", "list", "set", "frozenset", "dict", "Generator", "Enum"):
+        db.opaque_isinst[("Leaf", k)] = False
+    collab.field(db, "Leaf", "__class__", "u:type")
+    db.add(Contract("xsdata.utils.objects:literal_value", variant="call-view", trusted=True, call_default=True,
+                    params={}, returns="str", raises={}, call_ensures=["result == uf('literal_value', 'str', value)"],
+                    note="call-site view: the literal is a function of the value (its content is decided by the verified literal_value contracts)"))
+    db.add(Contract(
+        f"{PS}.repr_object", variant="leaf-value",
+        params={"self": serializer, "obj": "opaque:Leaf", "level": 0, "types": "opaque:PySet"},
+        requires=["not uf('ClassType.is_model', 'bool', self.context.class_type, obj)"],
+        ensures=[("exactly-the-literal-of-the-value", "len(result) == 1 and result[0] == uf('literal_value', 'str', obj)"),
+                 ("type-collected-for-imports", "called('PySet.add') == 1")],
+        raises={}, properties=P,
+    ))
+    # a list / tuple is delegated to repr_array with the same level and the same type collector
+    db.add(Contract(f"{PS}.repr_array", variant="call-view", trusted=True, call_default=True, params={},
+                    returns=lambda mk, base: (mk.value("str", "chunk"),), raises={}, modifies=["types"],
+                    note="call-site view of repr_array: some chunks; the call is recorded on the ghost trace"))
+    db.add(Contract(
+        f"{PS}.repr_object", variant="list-value",
+        params={"self": serializer, "obj": lambda mk, base: mk.plist([mk.value("opaque:Any", "item")]), "level": "int", "types": "opaque:PySet"},
+        ensures=[("delegated-to-repr_array-at-the-same-level",
+                  "called('PycodeSerializer.repr_array') == 1 and call_arg('PycodeSerializer.repr_array', 1) is obj "
+                  "and call_arg('PycodeSerializer.repr_array', 2) == level and call_arg('PycodeSerializer.repr_array', 3) is types"),
+                 ("type-collected-for-imports", "called('PySet.add') == 1")],
+        raises={}, properties=P,
+    ))
+    for meth in ("repr_mapping", "repr_model"):
+        db.add(Contract(f"{PS}.{meth}", variant="call-view", trusted=True, call_default=True, params={},
+                        returns=lambda mk, base: (mk.value("str", "chunk"),), raises={}, modifies=["types"],
+                        note=f"call-site view of {meth}: some chunks; the call is recorded on the ghost trace"))
+    for k in ("tuple", "list", "set", "frozenset", "Generator"):
+        db.opaque_isinst[("ModelObj", k)] = False
+    db.opaque_isinst[("ModelObj", "dict")] = False
+    DELEG = ("called('PycodeSerializer.{m}') == 1 and call_arg('PycodeSerializer.{m}', 1) is obj "
+             "and call_arg('PycodeSerializer.{m}', 2) == level and call_arg('PycodeSerializer.{m}', 3) is types")
+    db.add(Contract(
+        f"{PS}.repr_object", variant="mapping-value",
+        params={"self": serializer, "obj": "dict[str,str]", "level": "int", "types": "opaque:PySet"},
+        ensures=[("delegated-to-repr_mapping-at-the-same-level", DELEG.format(m="repr_mapping")),
+                 ("type-collected-for-imports", "called('PySet.add') == 1")],
+        raises={}, properties=P,
+    ))
+    db.add(Contract(
+        f"{PS}.repr_object", variant="model-value",
+        params={"self": serializer, "obj": "opaque:ModelObj", "level": "int", "types": "opaque:PySet"},
+        requires=["uf('ClassType.is_model', 'bool', self.context.class_type, obj)"],
+        ensures=[("delegated-to-repr_model-at-the-same-level", DELEG.format(m="repr_model")),
+                 ("type-collected-for-imports", "called('PySet.add') == 1")],
+        raises={}, properties=P,
+    ))
     # ------------------------------------------------------------------ enum members are resolvable dotted paths
     for k in ("tuple", "list", "set", "frozenset", "dict", "Generator"):
         db.opaque_isinst[("EnumValue", k)] = False
